@@ -27,10 +27,11 @@ def unchanged(cx, label, before, **after):
 @harness("C15", "rdm_propagate_repeat",
          quick=[dict(kind="tensor", first_nref=1), dict(kind="lindblad_op", first_nref=1),
                 dict(kind="none", first_nref=2), dict(kind="tensor", first_nref=1, pdeph="Lorentzian"),
-                dict(kind="tensor", first_nref=1, pdeph="Gaussian")],
+                dict(kind="tensor", first_nref=1, pdeph="Gaussian"), dict(kind="td_operators", first_nref=1)],
          thorough=[dict(kind=k, first_nref=r) for k in ("none", "tensor", "lindblad_op", "lindblad_tensor", "td_tensor")
                    for r in (1, 2) if not (k == "td_tensor" and r == 2)] +
-                  [dict(kind="tensor", first_nref=1, pdeph=d) for d in ("Lorentzian", "Gaussian")],
+                  [dict(kind="tensor", first_nref=1, pdeph=d) for d in ("Lorentzian", "Gaussian")] +
+                  [dict(kind="td_operators", first_nref=1)],
          functions=[F_P + ":ReducedDensityMatrixPropagator.propagate",
                     F_P + ":ReducedDensityMatrixPropagator.setDtRefinement",
                     F_P + ":ReducedDensityMatrixPropagator._INIT_EXP"],
@@ -46,6 +47,8 @@ def rdm_propagate_repeat(cx, kind, first_nref, pdeph=None):
     rhoi, rho0 = initial_state(cx, N)
     before = snapshot_arrays(H=ham._data, rho=rhoi._data, t=time.data,
                              R=(RT._data if (RT is not None and not RT.as_operators) else None))
+    if cx.sym and kind == "td_operators":
+        cx.assume_denominators_nonzero("")
     kw = {}
     if pdeph is not None:
         from quantarhei.qm.liouvillespace.puredephasing import PureDephasing
@@ -56,6 +59,8 @@ def rdm_propagate_repeat(cx, kind, first_nref, pdeph=None):
         kw = dict(PDeph=pd)
     fresh = ReducedDensityMatrixPropagator(time, ham, RTensor=RT, **kw).propagate(rhoi, method="short-exp-2").data.copy()
     unchanged(cx, "after_fresh", before, H=ham._data, rho=rhoi._data, t=time.data)
+    if cx.failed_so_far():
+        return      # the inputs are already modified: what follows would only compound it
     prop = ReducedDensityMatrixPropagator(time, ham, RTensor=RT, **kw)
     first = prop.propagate(rhoi, method="short-exp-2", Nref=first_nref).data.copy()
     unchanged(cx, "after_first", before, H=ham._data, rho=rhoi._data, t=time.data)
